@@ -92,6 +92,7 @@ def decode(vecs, types):
         elif t == 'f64': out.append(('f64bits', struct.unpack('<Q', b)[0]))
         elif t == 'bool': out.append(bool(b[0] & 1))
         elif t == 'u8': out.append(b[0])
+        elif t == 'i8': out.append(struct.unpack('<b', b[:1])[0])
         elif t == 'i32': out.append(struct.unpack('<i', b)[0])
         elif t == 'u32': out.append(struct.unpack('<I', b)[0])
         else: out.append(b)
